@@ -360,6 +360,7 @@ func c11Adversarial(r *mon.Run, key *world.Key, jr *rand.Rand, idx int) {
 	wA, wB := credA.C.NonRevocationWitness, credB.C.NonRevocationWitness
 	ctx, nonce := freshNonces(jr)
 	pks := []*gabikeys.PublicKey{pk}
+	var warm *gabi.ProofD
 	try := func(family, desc string, d *gabi.ProofD, t c11Truth, mustAccept bool) bool {
 		r.Distinct(family, desc, idx)
 		recv := cloneD(d)
@@ -377,6 +378,21 @@ func c11Adversarial(r *mon.Run, key *world.Key, jr *rand.Rand, idx int) {
 			}
 		} else if mustAccept {
 			c11Rejected(r, family, desc, d, t.cred, nil)
+		}
+		// object history: the same proof placed into an object that verified an honest proof of credential B before
+		if warm != nil && !ok {
+			w := cloneD(warm)
+			if okw, _, _ := verifyList(gabi.ProofList{w}, pks, ctx, nonce, false, nil); okw {
+				src := cloneD(d)
+				w.C, w.A, w.EResponse, w.VResponse, w.AResponses, w.ADisclosed, w.NonRevocationProof, w.RangeProofs = src.C, src.A, src.EResponse, src.VResponse, src.AResponses, src.ADisclosed, src.NonRevocationProof, src.RangeProofs
+				ok3, pv3, _ := verifyList(gabi.ProofList{w}, pks, ctx, nonce, false, nil)
+				r.Eval(family+"/reused-object", outcome(ok3, pv3))
+				if ok3 {
+					c11Accepted(r, family+"-reused-object", desc, w, t)
+					r.Violation("C11/verdict-depends-on-object-history", "a proof rejected in a fresh object is accepted in an object that verified another proof before ("+family+": "+desc+")",
+						map[string]any{"family": family, "case": desc, "proof": dumpD(d)})
+				}
+			}
 		}
 		return ok
 	}
@@ -442,6 +458,7 @@ func c11Adversarial(r *mon.Run, key *world.Key, jr *rand.Rand, idx int) {
 	if !try("lib-honest", "library proof of B", lib, tB, true) {
 		return
 	}
+	warm = lib
 	if idx%17 == 0 {
 		r.Sample(map[string]any{"adversarial_job": idx, "key": key.Name, "A_revoked_at": at, "accumulator_index": cur})
 	}
